@@ -25,7 +25,9 @@ mpmath.mp.dps = 50
 
 U = 2.0 ** -53
 DEFINED, UNDEF, UNDECIDED, RANGE = "defined", "undefined", "undecided", "range"
-_ORDER = {DEFINED: 0, UNDECIDED: 1, UNDEF: 2, RANGE: 3}
+# how the status of children combines: an UNDECIDED child outranks an UNDEF sibling, because nothing above the undecided
+# node was computed - the library may go on there and overflow before it ever reaches the undefined sibling
+_ORDER = {DEFINED: 0, UNDEF: 1, UNDECIDED: 2, RANGE: 3}
 MP_E = mpmath.e
 MARGIN = 4.0
 
